@@ -362,6 +362,13 @@ func (c *Ctx) Cmp(op string, a, b string, t types.Type) string {
 func (c *Ctx) ICmp(op, a, b string) string { return c.Cmp(op, a, b, types.Typ[types.Int]) }
 
 func (c *Ctx) IAdd(a, b string) string {
+	z := c.ILit(0)
+	if a == z {
+		return b
+	}
+	if b == z {
+		return a
+	}
 	if c.Mode == ModeInt {
 		return "(+ " + a + " " + b + ")"
 	}
